@@ -207,6 +207,8 @@ def match_known(f, m, known):
         for pat in sig.get("patterns", []):
             if pat.get("class") != f["class"]:
                 continue
+            if "when" in pat and not when_holds(pat["when"], f, m):   # a pattern may narrow the entry's predicate
+                continue
             if not re.search(pat.get("where", ""), f["where"]):
                 continue
             if not re.search(pat.get("message", ""), f["message"]):
